@@ -94,6 +94,12 @@ func (a *Act) callWithArgs(ctx *blockCtx, c *ssa.CallCommon, args []Val, fnv Val
 	}
 	// builtins
 	if bi, ok := c.Value.(*ssa.Builtin); ok {
+		n := 0
+		if idx < len(b.Instrs) {
+			n = a.ordinalOf(b.Instrs[idx], bi.Name())
+		}
+		a.anchors(ctx, bi.Name(), n, false, b, idx)
+		a.pending = append(a.pending, pendingAnchor{callee: bi.Name(), n: n})
 		return a.builtin(ctx, bi, c, args, resT, pos), nil
 	}
 	if c.IsInvoke() {
@@ -112,8 +118,8 @@ func (a *Act) callWithArgs(ctx *blockCtx, c *ssa.CallCommon, args []Val, fnv Val
 	a.anchors(ctx, shortName(key), n, false, b, idx)
 	a.pending = append(a.pending, pendingAnchor{callee: shortName(key), n: n})
 
-	if v, ok := a.modelCall(ctx, key, callee, c, args, resT, pos); ok {
-		return v, nil
+	if v, tup, ok := a.modelCall2(ctx, key, callee, c, args, resT, pos); ok {
+		return v, tup
 	}
 	if spec, ok := g.w.funcSpecs[key]; ok {
 		pnames := paramNames(callee)
@@ -309,7 +315,7 @@ func (a *Act) contractCall(ctx *blockCtx, spec *FuncSpec, key string, pnames []s
 		}
 	}
 	// crash inside the callee: durable state as described by its crashensures
-	if a.spec != nil && a.depth == 0 && len(a.spec.CrashInv) > 0 && len(spec.Modifies) > 0 {
+	if a.spec != nil && a.depth == 0 && (len(a.spec.CrashInv) > 0 || len(a.spec.CrashEns) > 0) && len(spec.Modifies) > 0 {
 		a.crashInside(ctx, spec, key, vars, pos)
 	}
 	// havoc modifies
@@ -355,13 +361,18 @@ func (a *Act) contractCall(ctx *blockCtx, spec *FuncSpec, key string, pnames []s
 
 // crashPoint: the crash invariant of the function under verification holds in the current state.
 func (a *Act) crashPoint(ctx *blockCtx, where string, pos token.Pos) {
-	if a.spec == nil || len(a.spec.CrashInv) == 0 {
+	if a.spec == nil || (len(a.spec.CrashInv) == 0 && len(a.spec.CrashEns) == 0) {
 		return
 	}
 	env := a.env(ctx.st, nil, nil)
 	for k, c := range a.spec.CrashInv {
 		t := a.trClause(env, c, "crashinv")
 		a.g.oblige("crash", fmt.Sprintf("%s/crashinv%d/%s", a.key, k, where), ctx.reach, t, c.Src, a.g.pos(pos), a.clauseProps(c))
+	}
+	// the function's own crashensures must hold if the process dies here
+	for k, c := range a.spec.CrashEns {
+		t := a.trClause(env, c, "crashensures")
+		a.g.oblige("crash", fmt.Sprintf("%s/crashensures%d/%s", a.key, k, where), ctx.reach, t, c.Src, a.g.pos(pos), a.clauseProps(c))
 	}
 }
 
@@ -394,6 +405,10 @@ func (a *Act) crashInside(ctx *blockCtx, spec *FuncSpec, key string, vars map[st
 	for k, c := range a.spec.CrashInv {
 		t := a.trClause(env, c, "crashinv")
 		g.oblige("crash", fmt.Sprintf("%s/crashinv%d/inside:%s", a.key, k, shortName(key)), and(ctx.reach, and(assumed...)), t, c.Src+"   [process dies inside "+key+"]", g.pos(pos), a.clauseProps(c))
+	}
+	for k, c := range a.spec.CrashEns {
+		t := a.trClause(env, c, "crashensures")
+		g.oblige("crash", fmt.Sprintf("%s/crashensures%d/inside:%s", a.key, k, shortName(key)), and(ctx.reach, and(assumed...)), t, c.Src+"   [process dies inside "+key+"]", g.pos(pos), a.clauseProps(c))
 	}
 }
 
